@@ -1,2 +1,7 @@
--- All property files that are complete (no `sorry`). The audit and the checks import this.
+-- All property files that are complete (no `sorry`). `setup_cmd` builds this.
+import JS.Props.C04
 import JS.Props.C07
+import JS.Props.C08
+import JS.Props.C14
+import JS.Props.C15
+import JS.Props.C17
